@@ -145,6 +145,27 @@ Polys(tt, nn) == [1..tt -> IF nn <= Rich THEN CoefVals ELSE CoefVals2]
 Honest(nn) == [k \in 1..nn |-> k - 1]                \* PriPoly.Shares(n)
 First(nn)  == IF Start = "honest" THEN Honest(nn) ELSE <<>>
 
+(* ROUTES.  The same abstract polynomial can be obtained through every exported *)
+(* constructor; whichever route built it, the object must answer identically.   *)
+(*   PriPoly: "coeffs"  CoefficientsToPriPoly(c)        "newpri"  NewPriPoly(t, c[1], stream)   *)
+(*            "recover" RecoverPriPoly(shares recS)     "add"     (sa) + (sb), sa + sb = c      *)
+(*            "mul"     <<mulk>> * mulc, mulk * mulc = c                                        *)
+(*   PubPoly: "commit"  pri.Commit(base)   "newpub" NewPubPoly(g, base, Info() commits)         *)
+(*            "recover" RecoverPubPoly(public shares recS)   "add" Commit(sa) + Commit(sb)      *)
+(* (the base of a RECOVERED PubPoly is documented as meaningless: Check/Info base not judged)   *)
+Routes == {[pri |-> "coeffs", pub |-> "commit"], [pri |-> "newpri", pub |-> "newpub"],
+           [pri |-> "recover", pub |-> "recover"], [pri |-> "add", pub |-> "add"],
+           [pri |-> "mul", pub |-> "newpub"]}
+RouteSeq == <<[pri |-> "coeffs", pub |-> "commit"], [pri |-> "newpri", pub |-> "newpub"],
+              [pri |-> "recover", pub |-> "recover"], [pri |-> "add", pub |-> "add"],
+              [pri |-> "mul", pub |-> "newpub"]>>
+SplitA(p)  == Force([j \in 1..Len(p) |-> (3 * j + 1) % Q])
+SplitB(p)  == Force([j \in 1..Len(p) |-> Md(p[j] - SplitA(p)[j])])
+MulK       == 2
+MulC(p)    == SeqScale(p, Inv(MulK))
+RecS(tt, nn) == nn - tt .. nn - 1                      \* the LAST t share indices
+RecSeq(tt, nn) == [k \in 1..tt |-> nn - tt + k - 1]
+
 \* lifted Check cases (mode "shape", polynomial with generic coefficients): the share's own
 \* value is on the committed polynomial, value + 1 is not, and the value of another share
 \* j # i is on it exactly when the polynomial is constant (t = 1).
@@ -158,7 +179,8 @@ ShapeChecks(tt, nn) ==
 
 DealRec(tt, nn, cc, bb) ==
   IF Mode = "shape"
-  THEN [op |-> "deal", t |-> tt, n |-> nn, slice |-> First(nn), checks |-> ShapeChecks(tt, nn)]
+  THEN [op |-> "deal", t |-> tt, n |-> nn, slice |-> First(nn), checks |-> ShapeChecks(tt, nn),
+        routes |-> RouteSeq, recs |-> RecSeq(tt, nn)]
   ELSE LET cm == Commits(cc, bb) IN
        [op |-> "deal", t |-> tt, n |-> nn, c |-> cc, b |-> bb, slice |-> First(nn),
         shares  |-> [k \in 1..nn |-> Share(cc, k - 1)],
@@ -217,9 +239,12 @@ CheckMatrix ==      \* [i][v] = CheckVerdict(i - 1, v - 1), sharing the sub-comp
   IN [ok |-> [i \in 1..Q-1 |-> [v \in 1..Q |-> pubs[i] = bexp[v]]], pubs |-> pubs]
 CheckAll ==
   /\ Len(hist) = 1
-  /\ LET m == CheckMatrix IN
-     hist' = Append(hist, [op |-> "checkall", ok |-> m.ok, pubs |-> m.pubs,
-                           evals |-> [i \in 1..Q-1 |-> Share(c, i - 1)]])
+  /\ \E r \in Routes :
+     LET m == CheckMatrix IN
+     hist' = Append(hist, [op |-> "checkall", route |-> r, ok |-> m.ok, pubs |-> m.pubs,
+                           evals |-> [i \in 1..Q-1 |-> Share(c, i - 1)],
+                           sa |-> SplitA(c), sb |-> SplitB(c), mulk |-> MulK, mulc |-> MulC(c),
+                           recs |-> RecSeq(t, n)])
   /\ UNCHANGED <<t, n, c, c2, b, slice>>
 
 Arith ==
@@ -243,7 +268,8 @@ Next ==
 
 Spec == Init /\ [][Next]_vars
 
-View == <<t, n, c, c2, b, slice, Len(hist) = 0, IF Terminal THEN hist[2].op ELSE "">>
+View == <<t, n, c, c2, b, slice, Len(hist) = 0, IF Terminal THEN hist[2].op ELSE "",
+          IF Terminal /\ hist[2].op = "checkall" THEN hist[2].route ELSE "">>
 
 -----------------------------------------------------------------------------
 (* Model-level statement of C07 (checked by TLC on every reachable state).   *)
@@ -276,6 +302,17 @@ CommitBinds ==
     \A i \in 0..Q-2 :
        /\ m.pubs[i + 1] = PExp(bp, sh[i + 1])
        /\ \A v \in 0..Q-1 : m.ok[i + 1][v + 1] <=> (v = sh[i + 1])
+
+\* every route yields the dealt polynomial and its commitments (so the expectations shipped
+\* with a checkall step do not depend on the route)
+RoutesAgree ==
+  (Mode \in {"exact", "check"} /\ Len(hist) = 1) =>
+    LET cm == Commits(c, b) IN
+    /\ SeqAdd(SplitA(c), SplitB(c)) = c
+    /\ PolyMul(<<MulK>>, MulC(c)) = c
+    /\ Interp(c, RecS(t, n)) = c
+    /\ PSeqAdd(Commits(SplitA(c), b), Commits(SplitB(c), b)) = cm
+    /\ InterpPub(cm, RecS(t, n)) = cm
 
 \* addition and multiplication commute with evaluation and with commitment
 ArithCommutes ==
